@@ -267,11 +267,15 @@ def oracle(case):
     if cl == "invert":
         x, y = np.array(case["x"], dtype=float), np.array(case["y"], dtype=float)
         ts = case["t"]
-        res = invert_pl_function(x, y, np.array(ts, dtype=float))
+        xin = np.array(case["x"], dtype=np.dtype(case["x_dtype"])) if case.get("x_dtype") else x
+        x = xin.astype(float)          # the values actually stored in the narrow dtype
+        with np.errstate(all="ignore"):
+            res = invert_pl_function(xin, y, np.array(ts, dtype=float))
         if not isinstance(res, list) or len(res) != len(ts):
             return f"vector target: {type(res).__name__} of length {len(res) if hasattr(res, '__len__') else '?'} {info}"
         for tj, sol in zip(ts, res):
-            one = invert_pl_function(x, y, float(tj))
+            with np.errstate(all="ignore"):
+                one = invert_pl_function(xin, y, float(tj))
             if not isinstance(one, np.ndarray) or not np.array_equal(np.ravel(one), np.ravel(sol)):
                 return f"scalar target {tj}: {one!r} differs from the vector call's entry {sol!r} {info}"
             sol = np.ravel(np.asarray(sol, dtype=float))
@@ -306,6 +310,23 @@ def oracle(case):
                     exp = invert_pl_function(xs, f(xs), tgt)
                     if len(got) != len(exp) or any(not np.array_equal(np.ravel(a), np.ravel(b)) for a, b in zip(got, exp)):
                         return f"threshold_at_metric(points={'None' if pts is None else pts if isinstance(pts, int) else 'array'}) differs from the inversion over the specified points {info}"
+        # metric names are resolved on the object's own class
+        class Sub(sa.Scores):
+            def fnr(self, threshold):
+                return 1.0 - sa.Scores.fnr(self, threshold)
+
+            def only_here(self, threshold):
+                return 0.5 * sa.Scores.tpr(self, threshold)
+        d = Sub(pos, neg, nb_easy_pos=case["ep"], nb_easy_neg=case["en"], score_class=case["sc"], equal_class=case["ec"])
+        with np.errstate(all="ignore"):
+            for nm in ("fnr", "only_here"):
+                try:
+                    got = d.threshold_at_metric(np.array([0.25, 0.5]), nm)
+                except Exception as e:        # noqa: BLE001
+                    return f"threshold_at_metric by name {nm!r} on a subclass raised {type(e).__name__}: {e} {info}"
+                exp = invert_pl_function(allv, getattr(Sub, nm)(d, allv), np.array([0.25, 0.5]))
+                if len(got) != len(exp) or any(not np.array_equal(np.ravel(a), np.ravel(b)) for a, b in zip(got, exp)):
+                    return f"threshold_at_metric by name {nm!r} is not resolved on the object's own class {info}"
         return None
     raise ValueError(cl)
 
@@ -345,6 +366,10 @@ def bounded(chk):
     for rep in range(40 if chk.tier == "quick" else 400):
         n = rng.randint(2, 9)
         items.append({"clause": "invert", "x": np.sort(rng.normal(size=n)).tolist(), "y": rng.randint(0, 5, size=n).astype(float).tolist(), "t": [0.0, 0.5, 1.0, 2.5, 4.0, 7.0]})
+    # narrow integer / float32 sample points with wide gaps (differences must not be formed in the points' dtype)
+    for dtn, xs in (("int8", [-100, 100]), ("int8", [-120, -5, 90, 127]), ("int16", [-30000, 0, 30000]), ("float32", [-3e38, 0.0, 3e38])):
+        ys = [float(k % 2) for k in range(len(xs))]
+        items.append({"clause": "invert", "x": xs, "y": ys, "t": [0.25, 0.5, 0.75], "x_dtype": dtn})
     for pos, neg in B.order_types(4, min_pos=1, min_neg=1):
         if len(set(pos + neg)) < 2:
             continue
